@@ -30,8 +30,11 @@ DftUnitary   == IsUnitary(Dft(L, N), D)
 InvIsAdjoint == /\ DftInv(L, N) = MatAdj(Dft(L, N), D)
                 /\ MatMul(DftInv(L, N), Dft(L, N), D) = MatId(D)
 OneQubitIsH  == W = 1 => Dft(L, N) = UnitaryOf(<<G("H", <<L[1]>>, <<>>, 0)>>, N)
-BitRevInvol  == /\ MatMul(BitRevU(L, N), BitRevU(L, N), D) = MatId(D)
-                /\ MatMul(BitRevU(L, N), MatMul(Dft(L, N), BitRevU(L, N), D), D) = Dft(RevSeq(L), N)
+BitRevInvol  == /\ \A x \in 0..(D - 1) : BitRevIdx(BitRevIdx(x, L, N), L, N) = x
+                /\ BitRevRows(MatId(D), L, N) = BitRevU(L, N)
+                /\ BitRevCols(MatId(D), L, N) = BitRevU(L, N)
+                /\ (N <= 3 => MatMul(BitRevU(L, N), Dft(L, N), D) = BitRevRows(Dft(L, N), L, N))
+                /\ BitRevRows(BitRevCols(Dft(L, N), L, N), L, N) = Dft(RevSeq(L), N)
 ModelExact   == /\ AllWellFormed(QftModel(L, inv, swp), N)
                 /\ UnitaryOf(QftModel(L, inv, swp), N) = QftExpected(L, N, inv, swp)
 \* the Fourier transform of the register value: column j has amplitudes zeta_N^(jk) / sqrt(N)
